@@ -73,6 +73,8 @@ type scenario struct {
 	Probes []probe     `json:"probes"`
 	Socket bool        `json:"socket"`
 	Conc   bool        `json:"conc"` // all probes at once, stubs read slowly
+	// Group: consecutive entries with the same service list are written as one [[port]] entry with ports=[...]
+	Group bool `json:"grouped_entries,omitempty"`
 }
 
 func mkScenario(seed int64, idx int, socket bool) scenario {
@@ -100,6 +102,15 @@ func mkScenario(seed int64, idx int, socket bool) scenario {
 			}
 		}
 		sc.Ports = append(sc.Ports, e)
+	}
+	if !socket && len(sc.Ports) > 0 && r.Chance(1, 3) {
+		// the first entry gets two more ports (same protocol and service list): the grouped form of the
+		// configuration, ports=[a, b, c]
+		sc.Group = true
+		e := sc.Ports[0]
+		e2, e3 := e, e
+		e2.Port, e3.Port = basePort+2, basePort+3
+		sc.Ports = append([]portEntry{e, e2, e3}, sc.Ports[1:]...)
 	}
 	payloads := [][]byte{[]byte("GET / HTTP/1.0\r\n\r\n"), []byte("G"), []byte("GE"), []byte("SSH-2.0-x\r\n"), {0x16, 0x03, 0x01, 0x00, 0x05, 1, 2, 3, 4, 5}, []byte("XYZ"), {}, {0x16}}
 	for i := 0; i < 8; i++ {
@@ -163,16 +174,24 @@ func config(sc scenario) string {
 			fmt.Fprintf(&b, "[service.%s]\ntype=\"lab-stub-prefix\"\nname=%q\nprefix=%q\n%s\n", s.Name, s.Name, hex.EncodeToString([]byte(s.Prefix)), slow)
 		}
 	}
-	for _, e := range sc.Ports {
-		addr := fmt.Sprintf("%s/%d", e.Net, e.Port)
+	addrOf := func(e portEntry) string {
 		if e.IP != "" {
-			addr = fmt.Sprintf("%s/%s:%d", e.Net, e.IP, e.Port)
+			return fmt.Sprintf("%s/%s:%d", e.Net, e.IP, e.Port)
 		}
+		return fmt.Sprintf("%s/%d", e.Net, e.Port)
+	}
+	for i := 0; i < len(sc.Ports); i++ {
+		e := sc.Ports[i]
 		var q []string
 		for _, s := range e.Services {
 			q = append(q, fmt.Sprintf("%q", s))
 		}
-		fmt.Fprintf(&b, "[[port]]\nport=%q\nservices=[%s]\n\n", addr, strings.Join(q, ","))
+		if sc.Group && i == 0 && len(sc.Ports) >= 3 {
+			fmt.Fprintf(&b, "[[port]]\nports=[%q,%q,%q]\nservices=[%s]\n\n", addrOf(e), addrOf(sc.Ports[1]), addrOf(sc.Ports[2]), strings.Join(q, ","))
+			i += 2
+			continue
+		}
+		fmt.Fprintf(&b, "[[port]]\nport=%q\nservices=[%s]\n\n", addrOf(e), strings.Join(q, ","))
 	}
 	return b.String()
 }
